@@ -1876,6 +1876,13 @@ stream_decoder_mt_memconfig(void *coder_ptr, uint64_t *memusage,
 			return LZMA_MEMLIMIT_ERROR;
 
 		coder->memlimit_stop = new_memlimit;
+
+		// Like at initialization, the limit for threading must not
+		// be higher than the hard limit: otherwise lowering the
+		// hard limit would let the threads and the output queue
+		// go on using more memory than the application now allows.
+		if (coder->memlimit_threading > new_memlimit)
+			coder->memlimit_threading = new_memlimit;
 	}
 
 	return LZMA_OK;
